@@ -15,13 +15,14 @@ git diff --stat -- src locustdb-* >> "$LOG"
 echo "== cargo build --offline --lib" >> "$LOG"
 cargo build --offline --lib >> "$LOG" 2>&1 && echo "BUILD OK" >> "$LOG" || echo "BUILD FAILED" >> "$LOG"
 echo "== existing suite with the change (demo test excluded)" >> "$LOG"
-cargo test --workspace --offline --no-fail-fast --lib --test ingestion_test --test query_tests 2>&1 | grep -E "^test result|FAILED|failed" >> "$LOG"
+# (own network namespace: tests/ingestion_test.rs binds fixed loopback ports)
+unshare -n sh -c 'ip link set lo up; timeout 2400 cargo test --workspace --offline --no-fail-fast --lib --test ingestion_test --test query_tests 2>&1' | grep -E "^test result|FAILED|failed" >> "$LOG"
 echo "== demo with the change (must fail)" >> "$LOG"
-cargo test --offline --test seeded_demo 2>&1 | grep -E "^test result|panicked|FAILED" | head -5 >> "$LOG"
+timeout 1200 cargo test --offline --test seeded_demo 2>&1 | grep -E "^test result|panicked|FAILED" | head -5 >> "$LOG"
 echo "== demo without the change (must pass)" >> "$LOG"
 git diff -- src locustdb-* > /tmp/confirm-$NAME.diff
 git apply -R /tmp/confirm-$NAME.diff
-cargo test --offline --test seeded_demo 2>&1 | grep -E "^test result|panicked|FAILED" | head -5 >> "$LOG"
+timeout 1200 cargo test --offline --test seeded_demo 2>&1 | grep -E "^test result|panicked|FAILED" | head -5 >> "$LOG"
 git apply /tmp/confirm-$NAME.diff
 rm -f /tmp/confirm-$NAME.diff
 echo "== done" >> "$LOG"
